@@ -362,6 +362,14 @@ func minVersion(v1, v2 string) string {
 	if v1 == "" || v2 == "" {
 		return ""
 	}
+	if version.IsValid(v1) && version.IsValid(v2) {
+		// Toolchain programs carry Go versions, which are not semantic
+		// versions: semver.Compare treats them all as equal.
+		if version.Compare(v1, v2) > 0 {
+			return v2
+		}
+		return v1
+	}
 	if semver.Compare(v1, v2) > 0 {
 		return v2
 	}
